@@ -15,6 +15,8 @@ EXPLANATION = (
 NOT_DECIDED = ("that no boundary is skipped/invented, distances within tolerance, finite crossings "
                "(geometric, numeric)")
 
+TECHNIQUE = ("typestate rules on the navigator's CFG: must-pass after every position/direction write, guard dominance on failure edges, cache write/return agreement; enum/flag writer-reader agreement")
+
 UNITS = [
     "src/celeritas/geo/detail/BoundaryAction.cc",
     "src/celeritas/track/InitializeTracksAction.cc",
